@@ -16,3 +16,8 @@ pub(crate) fn fresh_event_store() -> EventStore {
     };
     EventStore { event_map_file, event_map_file_len: AtomicUsize::new(EVENT_MAP_CHUNK), event_map }
 }
+
+/// the mapped bytes (diagnostic probes only)
+pub(crate) fn map_bytes(es: &EventStore) -> &[u8] {
+    &es.event_map[..]
+}
